@@ -540,13 +540,14 @@ func storeDominatesUses(st *ssa.Store) bool {
 		uses := false
 		switch x := ins.(type) {
 		case *ssa.UnOp:
-			if fa2, ok := x.X.(*ssa.FieldAddr); ok && fa2.X == base && fa2.Field == fa.Field {
+			// go/ssa loads `node.Operation` anew for every mention: compare the address chains, not the values
+			if fa2, ok := x.X.(*ssa.FieldAddr); ok && (fa2.X == base || sameLenBase(fa2.X, base)) && fa2.Field == fa.Field && fa2.X.Type() == base.Type() {
 				uses = true
 			}
 		default:
 			if cc := callCommon(ins); cc != nil {
 				for _, a := range cc.Args {
-					if a == base {
+					if a == base || (a.Type() == base.Type() && sameLenBase(a, base)) {
 						uses = true
 					}
 				}
